@@ -29,6 +29,12 @@ CLAIMED = {
  "C19": ("store-effect model over the call graph: written/exported/imported prefix sets per module, prefix typing, GenesisState field census",
          "every record kind written by transactions or block processing is exported and imported (or is a derived index), exported prefixes are singly typed, every GenesisState field is assigned by Export and consumed by Init. Five known findings (proof records, primary names, emission history, block lists). Value-level round-trip equality is not decided.",
          "DESIGN.md §5 C19"),
+ "C09": ("bank-effect model of the rns module account, same-value and provenance checks of amounts/recipients, must-pass-through path search (credit follows debit, delete follows payout), overwrite-or-refund guard analysis, error-propagation check",
+         "pass-through handlers debit and credit one value; a bid's escrow and recorded price are msg.Bid, keyed/paid by the signer; a bid is overwritten only after refunding the old one; cancel/accept pay the recorded price to the signer and always delete the bid; bank errors propagate. The numeric balance invariant itself is not decided.",
+         "DESIGN.md §5 C09"),
+ "C15": ("bank/store effect census (closed world), provenance of locked/recorded/refunded amounts, commit-path guard analysis, must-pass-through of record deletion, maccPerms AST check",
+         "lock = record = Param(CollateralPrice) from the signer when no provider exists; refund = loaded record's amount to the signer, always followed by deleting collateral and provider; nobody else writes collateral records or touches the escrow account; the account is registered; errors propagate. The numeric escrow invariant is not decided.",
+         "DESIGN.md §5 C15"),
 }
 NA = {}
 props = [json.loads(l) for l in open('properties.jsonl')]
